@@ -23,7 +23,9 @@ META = {
                'one-day increment/decrement wrap at day > daysInMonth / day == 0 with the right month/year carries and are mutually '
                'inverse on the decision level; toEpochDays and extractYearMonthDay equal the Gregorian day count and its inverse on '
                'every day of the domain (thorough tier: all 93,136 days); isYearValid accepts exactly 1873..2127; seconds of the day '
-               'split and recombine consistently and LocalTime::isError accepts exactly 00:00:00..23:59:59 and 24:00:00',
+               'split and recombine consistently and LocalTime::isError accepts exactly 00:00:00..23:59:59 and 24:00:00; '
+               'isError() of LocalDate and LocalDateTime (interpreted on stored field bytes, 0 and the values above the ranges '
+               'included) flags the invalid year, months outside 1..12 and days outside 1..31 and no date of the calendar',
     'not_decided': 'the composition of the pieces for all 2^32 epoch seconds (each piece - floor quotient, day formulas, seconds-of-day '
                    'split - is decided on its own domain); the closed form of dayOfWeek beyond its table and anchor',
     'assumptions': ['clang 14 parser', 'CPython ast'],
@@ -133,6 +135,7 @@ def run(cfg):
     ob('R2', h.name, h.loc, not badm, 'daysInMonth() does not give the calendar month length (table entry month-1, 29 for a leap February): %s' % '; '.join(badm[:4]))
     onedays(R, lib, ob)
     localtime_pairing(R, lib, ob)
+    localdate_error(R, lib, ob)
     floor_rule(R, lib, ob)
     julian_rule(R, lib, ob)
     year_range_rule(R, lib, ob)
@@ -339,6 +342,45 @@ def localtime_pairing(R, lib, ob):
     ob('R5', e.name, e.loc, not bad, 'isError() misclassifies (hour, minute, second) in %s' % bad[:4])
 
 
+def localdate_error(R, lib, ob):
+    """LocalDate::isError() and LocalDateTime::isError(), interpreted (E-SEQ, typed) on stored field values: true for the invalid
+    year marker, a month outside 1..12 and a day outside 1..31 (0 and the values above the range, for every byte the members can
+    hold at the edges); false for every date of the calendar.  Days 29..31 of a shorter month are left open: the statement
+    allows either answer."""
+    import calendar
+    from .aeval import AEval, CxxModule, Raised, cxx_object
+    R.rule('R8', 'LocalDate::isError() / LocalDateTime::isError() flag the invalid year, months outside 1..12 and days outside 1..31, and no date of the calendar', floor=2)
+    mod = CxxModule(lib, ['ace_time::'])
+    inv = lib.const('ace_time::LocalDate::kInvalidYearTiny')
+    years = sorted({-128, -127, -100, -1, 0, 4, 100, 127, inv})
+    months = (0, 1, 2, 6, 11, 12, 13, 128, 255)
+    days = (0, 1, 2, 28, 29, 30, 31, 32, 128, 255)
+    for cls, wrap in (('ace_time::LocalDate', None), ('ace_time::LocalDateTime', 'mLocalDate')):
+        f = lib.fn(cls + '::isError')
+        bad = None
+        n = 0
+        for y in years:
+            for m in months:
+                for d in days:
+                    o = cxx_object(lib, cls)
+                    ld = o if wrap is None else o.attrs.get(wrap)
+                    if ld is None or not {'mYearTiny', 'mMonth', 'mDay'} <= set(ld.attrs):
+                        raise AnalysisError('%s: the date fields mYearTiny / mMonth / mDay are not where the rule expects them' % f.loc)
+                    ld.attrs.update({'mYearTiny': y, 'mMonth': m, 'mDay': d})
+                    try:
+                        got = bool(AEval(module=mod, typed=True, max_steps=5000).call_function(f.name, [], recv=o, chosen=CxxModule._Fn(f)))
+                    except Raised as x_:
+                        got = 'raises %s' % x_.what
+                    n += 1
+                    must_err = y == inv or not 1 <= m <= 12 or not 1 <= d <= 31
+                    valid = not must_err and d <= calendar.monthrange(2000 + y, m)[1]
+                    if bad is None and ((must_err and got is not True) or (valid and got is not False)):
+                        bad = 'stored fields (yearTiny %d, month %d, day %d): isError() is %s, expected %s' % (y, m, d, got, 'true' if must_err else 'false')
+        R.instance('R8', f.name, f.loc, '%d field combinations interpreted' % n)
+        if bad:
+            R.violation('R8', f.name, f.loc, bad)
+
+
 def _setter_args(eff):
     out = {}
     for tgt, val in eff:
@@ -418,6 +460,11 @@ SELFTEST = [
     dict(id='decrement-december-length', file='src/ace_time/local_date_mutation.h', find='      day = 31;', replace='      day = 30;', rule='R4', construct='decrementOneDay'),
     dict(id='python-month-table', file='tools/tzdb/transformer.py', find='DAYS_IN_MONTH = [31, 28, 31, 30, 31, 30, 31, 31, 30, 31, 30, 31]',
          replace='DAYS_IN_MONTH = [31, 28, 31, 30, 31, 30, 31, 31, 30, 31, 31, 30]', rule='R2'),
+    dict(id='date-range-test-by-subtraction-without-the-cast', file='src/ace_time/LocalDate.h',
+         find='          || mDay < 1 || mDay > 31\n          || mMonth < 1 || mMonth > 12;', replace='          || mDay - 1 > 30\n          || mMonth - 1 > 11;', rule='R8'),
+    dict(id='date-range-test-by-unsigned-subtraction-silent', file='src/ace_time/LocalDate.h',
+         find='          || mDay < 1 || mDay > 31\n          || mMonth < 1 || mMonth > 12;',
+         replace='          || (uint8_t) (mDay - 1) > 30\n          || (uint8_t) (mMonth - 1) > 11;', expect='silent'),
     # the write-back moved into the destructor of a scope guard: quiet when it stores all three fields, reported when it forgets one
     dict(id='write-back-in-a-scope-guard-silent', edits=[
         dict(file='src/ace_time/local_date_mutation.h',
